@@ -583,5 +583,7 @@ def _convert_object_to_annotation(obj: Any, parent: Module | Class) -> str | Exp
     try:
         annotation_node = compile(annotation, mode="eval", filename="<>", flags=ast.PyCF_ONLY_AST, optimize=2)
     except SyntaxError:
-        return obj
+        # Not an expression (`<lambda>`, the representation of an arbitrary object):
+        # keep the text, never the object itself, which could not be serialized.
+        return annotation
     return safe_get_annotation(annotation_node.body, parent=parent)  # type: ignore[attr-defined]
